@@ -79,6 +79,14 @@ class DB:
                         for el in d["master_species"].get(x, []):
                             if "(" in el and el.split("(")[0] not in own:
                                 self.currency.add(el)
+        # redox elements that form species containing a secondary master species more than once (polynuclear species)
+        self.poly_redox = set()
+        for n in self.usable:
+            for c, x in d["species"][n]["eq"]:
+                if x != n and abs(c) > 1 and x not in ("H+", "H2O", "e-"):
+                    for el in d["master_species"].get(x, []):
+                        if "(" in el and not el.startswith(("H(", "O(")):
+                            self.poly_redox.add(el.split("(")[0])
         self._coq = None
 
     def kvec(self, k):
@@ -153,6 +161,9 @@ UNITS = [("mol/kgw", 1.0), ("mmol/kgw", 1e3), ("umol/kgw", 1e6), ("mmol/L", 1e3)
 ADJ_PHASES = [("Ca", "Calcite", 0.0), ("C", "CO2(g)", -3.5), ("C(4)", "CO2(g)", -2.0), ("S(6)", "Gypsum", 0.0), ("Ba", "Barite", 0.0), ("Si", "Quartz", 0.0), ("Fe", "Goethite", 0.0)]
 
 
+COUPLES = [("O(0)", "O(-2)"), ("N(5)", "N(-3)"), ("S(6)", "S(-2)"), ("Fe(3)", "Fe(2)"), ("N(5)", "N(3)"), ("As(5)", "As(3)"), ("O(0)", "O(-2)")]
+
+
 def redox_states(db, el):
     return [e for e in db.d["masters"] if e.startswith(el + "(")]
 
@@ -202,6 +213,39 @@ def gen_solution(ctx, db, prim, pos, num):
         else:
             comps.append([e, c, ""])
     comps = [c for c in comps if c[0] not in used and not used.add(c[0])]
+    # redox couple other than pe (default `redox X/Y` line or per-element couple on the line of an element total): the
+    # valence states of that element are then distributed with the couple's pe, not with the solution pe
+    couple, couple_default, couple_elements = None, False, []
+    if rng.random() < 0.3:
+        cands = [(a, b) for a, b in COUPLES if a in d["masters"] and b in d["masters"]]
+        if cands:
+            a, b = rng.choice(cands)
+            cel = a.split("(")[0]
+            comps = [c for c in comps if c[0].split("(")[0] != cel]
+            valence_input[:] = [v for v in valence_input if v.split("(")[0] != cel]
+            for st in (a, b):
+                if st not in ("O(-2)", "H(1)"):
+                    comps.append([st, 10 ** rng.uniform(-6, -3), ""])
+                    valence_input.append(st)
+            couple = "%s/%s" % (a, b)
+            # redox elements entered as TOTALS use the couple; make sure there is at least one, preferably one that forms
+            # polynuclear species of a secondary master species (Fe2(OH)2+4, Cu2(OH)2+2, (UO2)2(OH)2+2, Cr2O7-2 ...)
+            tot_redox = [c[0] for c in comps if "(" not in c[0] and redox_states(db, c[0]) and c[0] != cel]
+            pool = [e for e in db.poly_redox if e in prim and e != cel] or [e for e in prim if redox_states(db, e) and e != cel and e not in ("C", "N", "S")]
+            if pool and (not tot_redox or rng.random() < 0.7):
+                e = rng.choice(pool)
+                comps = [c for c in comps if c[0].split("(")[0] != e]
+                valence_input[:] = [v for v in valence_input if v.split("(")[0] != e]
+                comps.append([e, 10 ** rng.uniform(-6, -3), ""])
+                tot_redox = [c[0] for c in comps if "(" not in c[0] and redox_states(db, c[0]) and c[0] != cel]
+            if rng.random() < 0.5:
+                couple_default = True
+                couple_elements = list(tot_redox)
+            else:
+                for c in comps:
+                    if c[0] in tot_redox and (not couple_elements or rng.random() < 0.5):
+                        c[2] = couple
+                        couple_elements.append(c[0])
     adjust = None
     r = rng.random()
     if r < 0.25:
@@ -239,9 +283,12 @@ def gen_solution(ctx, db, prim, pos, num):
                         have.add(el)
             adjust = "phase:%s:%s" % (e, p)
     txt = "SOLUTION %d\n temp %s\n pH %s%s\n pe %s\n units %s\n" % (num, tc, ph, " charge" if adjust == "charge:pH" else "", pe, unit)
+    if couple_default:
+        txt += " redox %s\n" % couple
     for e, c, opt in comps:
         txt += " %s %.6g %s\n" % (e, c * fac, opt)
-    meta = {"tc": tc, "ph": ph, "pe": pe, "units": unit, "elements": [c[0] for c in comps], "valence_input": valence_input, "adjust": adjust}
+    meta = {"tc": tc, "ph": ph, "pe": pe, "units": unit, "elements": [c[0] for c in comps], "valence_input": valence_input, "adjust": adjust,
+            "couple": couple, "couple_default": couple_default, "couple_elements": couple_elements}
     return txt, meta
 
 
@@ -362,6 +409,21 @@ def exempt_species(db, o, meta):
                 for e2, m2 in db.d["masters"].items():
                     if e2.startswith(el + "("):
                         ex.add(m2["species"])
+        # elements whose valence states are distributed with a redox couple instead of the solution pe: the reactions
+        # between their secondary master species hold with the COUPLE's electron activity, not with la(e-) = -pe
+        cels = list(meta.get("couple_elements") or [])
+        if meta.get("couple_default"):
+            cels += ["H", "O"]            # O2 and H2 of an initial solution follow the default redox couple as well
+        for el in cels:
+            for e2, m2 in db.d["masters"].items():
+                if e2.startswith(el + "(") and e2 not in ("H(1)", "O(-2)"):
+                    ex.add(m2["species"])
+        if cels:
+            # non-master species written with an explicit e- (e.g. Fe+2 + ... = X + e-) of those elements
+            for n in db.usable:
+                sp = db.d["species"][n]
+                if not sp["is_master"] and any(x == "e-" for c, x in sp["eq"]):
+                    ex.add(n)
     return ex
 
 
@@ -384,8 +446,10 @@ def q(x):
     return leaf.coq_Q(x)
 
 
-def coq_case(db, o, exempt):
-    """Coq expression (tuple of failure lists) for one observation"""
+def coq_case(db, o, exempt, couple=False):
+    """Coq expression (tuple of failure lists) for one observation.  couple: the row is an initial solution that uses a
+    redox couple other than pe; reactions written with an explicit e- then hold with the couple's electron activity for
+    the elements that use the couple, so phases whose database reaction contains e- are not checked in that row."""
     d = db.d
     sid, pid = db.sid, db.pid
     la = {n: v[0] for n, v in o["sp"].items() if n in sid}
@@ -395,7 +459,8 @@ def coq_case(db, o, exempt):
     ex_txt = "; ".join("%d" % sid[n] for n in exempt if n in sid)
     lk_txt = "; ".join("(%d%%positive, %s)" % (sid[n], q(v[5])) for n, v in o["sp"].items() if n in sid and n in db.usable)
     lkp_txt = "; ".join("(%d%%positive, %s)" % (pid[n], q(v[2])) for n, v in o["ph"].items() if n in pid)
-    si_txt = "; ".join("(%d%%positive, %s)" % (pid[n], q(v[0])) for n, v in o["ph"].items() if n in pid)
+    si_txt = "; ".join("(%d%%positive, %s)" % (pid[n], q(v[0])) for n, v in o["ph"].items() if n in pid
+                       and not (couple and any(x == "e-" for c, x in d["phases"][n]["eq"])))
     mol = {n: v[3] for n, v in o["sp"].items() if n in sid}
     # element / valence-state totals.  Stoichiometry of a species (PHREEQC manual, SOLUTION_SPECIES): the -mole_balance
     # formula when given; otherwise its formula, which for an element-balanced reaction is the same as the content of the
@@ -502,13 +567,21 @@ def run_coq(items, workers=None, chunk=5, timeout=900):
         chunks += [b for b in buckets if b]
     chunks.sort(key=lambda b: -sum(len(items[k][1]) for k in b))
 
-    def one(ks):
+    def one(ks, tmo=None, retry=True):
         db = items[ks[0]][0]
         v = PRELUDE + db.coq() + "".join("Eval vm_compute in %s.\n" % items[k][1] for k in ks)
-        rc, out = vlib.coq_eval(v, timeout=timeout)
+        rc, out = vlib.coq_eval(v, timeout=tmo or timeout)
         blocks = re.findall(r"=\s*(\[.*?\])\s*:\s*list \(list positive\)", out, flags=re.S)
         if rc != 0 or len(blocks) != len(ks):
-            return ks, [None] * len(ks), out[-2000:]
+            if rc == 124 and retry:
+                # the shared machine can be very slow: a time-out is not a finding; try the rows one by one, once more
+                res, err = [], ""
+                for k in ks:
+                    _, r1, e1 = one([k], tmo=2 * timeout, retry=False)
+                    res += r1
+                    err = err or e1
+                return ks, res, err
+            return ks, [None] * len(ks), ("TIMEOUT " if rc == 124 else "") + out[-2000:]
         res = []
         for b in blocks:
             inner = b.strip()[1:-1]
@@ -630,10 +703,15 @@ def process(ctx, jobs, res, leaves, stats, max_cases):
                             bad_tr.append("%s %s: generated k_calc gives %r, LK_SPECIES %r" % (dbname, n, gv, v[5]))
         flat += [(db, j, o, meta) for j, o, meta in items]
     t0 = time.time()
-    out, errs = run_coq([(db, coq_case(db, o, exempt_species(db, o, meta))) for db, j, o, meta in flat])
+    out, errs = run_coq([(db, coq_case(db, o, exempt_species(db, o, meta),
+                                           couple=bool(meta and o["state"] == "i_soln" and meta.get("couple_elements")))) for db, j, o, meta in flat])
     stats["coq_checker_wall_s"] = round(time.time() - t0, 1)
-    if errs:
-        ctx.obligation("checker-evaluation", False, errs[0])
+    hard = [e for e in errs if not e.startswith("TIMEOUT")]
+    if hard:
+        ctx.obligation("checker-evaluation", False, hard[0])
+    elif errs:
+        stats["checker_chunks_timed_out"] = len(errs)
+        ctx.notes.append("%d evaluation(s) of the verified checker timed out twice (loaded machine); those rows are not counted as checked" % len(errs))
     for (db, j, o, meta), r in zip(flat, out):
         dbname = db.name
         if True:
@@ -724,8 +802,15 @@ def run(ctx):
             metas = []
             for blk in re.split(r"(?m)^SOLUTION \d+\s*$", rp["input_text"])[1:]:
                 body = blk.split("END")[0]
-                vi = [ln.split()[0] for ln in body.splitlines() if ln.strip() and "(" in ln.split()[0] and ln.split()[0] in db.d["masters"]]
-                metas.append({"valence_input": vi, "elements": [], "adjust": None})
+                lines = [ln.split() for ln in body.splitlines() if ln.strip()]
+                vi = [t[0] for t in lines if "(" in t[0] and t[0] in db.d["masters"]]
+                if any(t[0] == "Alkalinity" for t in lines):
+                    vi.append("C(4)")
+                ce = [t[0] for t in lines if t[0] in db.d["masters"] and "(" not in t[0] and any("/" in x and "(" in x for x in t[2:])]
+                if any(t[0] == "redox" for t in lines):
+                    ce += [t[0] for t in lines if t[0] in db.d["masters"] and "(" not in t[0] and redox_states(db, t[0])]
+                metas.append({"valence_input": vi, "elements": [], "adjust": None, "couple_elements": ce,
+                              "couple_default": any(t[0] == "redox" for t in lines)})
             job["metas"] = metas
             res = vlib.run_inputs([job], timeout_each=120, workers=1)
             process(ctx, [job], res, leaves, stats, 10 ** 6)
@@ -750,7 +835,8 @@ def run(ctx):
     check_collisions(ctx, dbs, stats)
     ctx.rule = ("random solutions over the primary elements of each database (rotating so that all are visited; 2-9 elements, "
                 "log-uniform 1e-9..3 molal with most mass in 1e-7..3e-2, pH 2..12, pe -5..15, 0..100 C, several units, 25% one element "
-                "charge-adjusted, 10% pH charge-adjusted, 15% phase-adjusted, 30% of redox elements given by valence state), "
+                "charge-adjusted, 10% pH charge-adjusted, 15% phase-adjusted, 30% of redox elements given by valence state, 30% with a "
+                "redox couple other than pe as default or on element totals), "
                 "followed by reaction (temperature change + equilibrium phases), mixing or advection steps; a case = one row of the "
                 "selected output = one completed solution calculation; non-trivial = at least one database mass-action equation checked")
     ctx.extra["stats"] = stats
@@ -761,6 +847,6 @@ def run(ctx):
                     "clang AST + translator/leaf.py (syntax transliteration of the regenerated expressions)"]
     ctx.notes += ["Newton-Raphson convergence / termination is not proved; runs ending with ERROR are outside the premise and only counted",
                   "1 atm only (rows with PRESSURE != 1 are skipped); fp rounding not modelled (tolerances of the property absorb it)",
-                  "species exempt from mass action: secondary master species of elements given by valence state in an INITIAL solution (redox disequilibrium by input)"]
+                  "species exempt from mass action: secondary master species of elements given by valence state, or distributed with a redox couple other than pe, in an INITIAL solution (redox disequilibrium by input)"]
     if stats["rows_checked"] == 0:
         ctx.obligation("correspondence-ran(at least one solution checked)", False, json.dumps(stats))
